@@ -17,7 +17,7 @@ PROP = dict(
         "instructions whose loop count exceeds 65536 are not replayed by the runner (accepted only if they stop without a persistent write)",
     ],
     translators=["kvtable"],
-    quick_shards=8,
+    quick_shards=8, model_timeout=2400,
     trusted_base=[
         "hand-written L1 model coq/Vm/KvModel.v of interpreter/storage.rs (storage_read_slot, storage_slot_len_no_gas, storage_write_slot, "
         "storage_clear_slot_range, storage_read_to_memory, storage_update_from_memory, storage_preload, key_range), MemoryStorage::"
@@ -48,7 +48,7 @@ PROP = dict(
           "The first transaction of every history is also traced with vmtrace::trace and must agree step by step with the probing loop. "
           "Each storage instruction = one step (operands, memory oracle tables, outcome, result registers, $err, bytes written, backing-storage calls, gas) "
           "replayed by the L1 model threaded through the whole history; store and slot cache compared after every transaction. "
-          "Oracles on the implementation: HashMap reference replay, cache coherence after every instruction, same results with the cache emptied before "
+          "Oracles on the implementation: HashMap reference replay, cache coherence after every instruction, same results (and, with hot cost := cold cost, same gas) with the cache emptied before "
           "every instruction, no contract-state access outside storage instructions. "
           "distinct = distinct history text; non-trivial = >= 5 storage steps, >= 1 persistent write, >= 3 opcodes"),
     level_text=("Machine-checked proof (Coq) over an abstract machine: programs over the three slot operations (read / write / clear range) interpreted on "
